@@ -71,6 +71,29 @@ func vViews(doc *Document) string {
 		sb = append(sb, vSafe(id+".spouses", func() string { return id + ".spouses=" + vPtrs(ind.Spouses()) }))
 		sb = append(sb, vSafe(id+".parents", func() string { return id + ".parents=" + vFamPtrs(ind.Parents()) }))
 		sb = append(sb, vSafe(id+".birth", func() string { d, _ := ind.Birth(); return id + ".birth=" + String(d) }))
+		sb = append(sb, vSafe(id+".death", func() string { d, _ := ind.Death(); return id + ".death=" + String(d) }))
+		sb = append(sb, vSafe(id+".sex", func() string { return id + ".sex=" + Value(ind.Sex()) }))
+		sb = append(sb, vSafe(id+".events", func() string {
+			var tags []string
+			for _, e := range ind.AllEvents() {
+				tags = append(tags, e.Tag().Tag())
+			}
+			return id + ".events=" + strings.Join(tags, "|")
+		}))
+		sb = append(sb, vSafe(id+".kids", func() string {
+			var vals []string
+			for _, c := range ind.Children() {
+				vals = append(vals, c.Value())
+			}
+			return id + ".kids=" + strings.Join(vals, "|")
+		}))
+		sb = append(sb, vSafe(id+".spousechildren", func() string {
+			n := 0
+			for _, cs := range ind.SpouseChildren() {
+				n += 1 + 10*len(cs)
+			}
+			return id + ".spousechildren=" + fmt.Sprint(n)
+		}))
 	}
 	for _, fam := range doc.Families() {
 		fam := fam
@@ -95,7 +118,9 @@ func vWarmViews(doc *Document) string {
 }
 
 var vC13Edits = []string{"AddNode", "DeleteNode", "SetNodes", "AddIndividual-new", "AddIndividual-clash", "AddFamily",
-	"SetHusband", "ClearHusband", "SetWife", "ClearWife", "AddChild", "DeleteFamilyRecord", "DeleteIndividualRecord"}
+	"SetHusband", "ClearHusband", "SetWife", "ClearWife", "AddChild", "DeleteFamilyRecord", "DeleteIndividualRecord",
+	"AddName", "AddBirthDate", "AddDeathDate", "SetSex", "SetWifePointer", "SetHusbandPointer", "AddFamilyWithHusbandAndWife",
+	"AddRootRecord", "ReplaceRootRecords", "DeleteGrandchild", "AddIndividual-symbolic"}
 var vC13Reads = []string{"views", "Warnings", "String", "Compare", "SurroundingSimilarity", "CompareNodes", "DeepCopyIntoOtherDocument"}
 
 func vC13Apply(doc *Document, op int) (isRead bool, name string) {
@@ -162,6 +187,50 @@ func vC13Apply(doc *Document, op int) (isRead bool, name string) {
 			if i3 != nil {
 				doc.DeleteNode(i3)
 			}
+		case "AddName":
+			if i3 != nil {
+				i3.AddName("Robert /Smith/")
+			}
+		case "AddBirthDate":
+			if i2 != nil {
+				i2.AddBirthDate("2 Feb 1849")
+			}
+		case "AddDeathDate":
+			if i1 != nil {
+				i1.AddDeathDate("1 Jan 1900")
+			}
+		case "SetSex":
+			if i3 != nil {
+				i3.SetSex("M")
+			}
+		case "SetWifePointer":
+			if f != nil {
+				f.SetWifePointer("I3")
+			}
+		case "SetHusbandPointer":
+			if f != nil {
+				f.SetHusbandPointer("I2")
+			}
+		case "AddFamilyWithHusbandAndWife":
+			if i3 != nil && i2 != nil {
+				doc.AddFamilyWithHusbandAndWife("F8", i3, i2)
+			}
+		case "AddRootRecord":
+			doc.AddNode(NewNode(TagNote, "a root note", "N1"))
+		case "ReplaceRootRecords":
+			// the document without its last record
+			if ns := doc.Nodes(); len(ns) > 0 {
+				doc.SetNodes(ns[:len(ns)-1])
+			}
+		case "DeleteGrandchild":
+			if i1 != nil {
+				if bs := i1.Births(); len(bs) > 0 && len(bs[0].Nodes()) > 0 {
+					bs[0].DeleteNode(bs[0].Nodes()[0])
+				}
+			}
+		case "AddIndividual-symbolic":
+			// a pointer that clashes with an existing record or not, as the solver pleases
+			doc.AddIndividual("I"+VsBytesIn("newptr", 1, "1239"), NewNode(TagName, "Sym /Bolic/", ""))
 		}
 		return false, name
 	}
@@ -214,7 +283,7 @@ func vC13ApplyGuarded(doc *Document, op int) (isRead bool, name string, crashed 
 	return
 }
 
-// VerifC13_History: every history of cs%3+1 operations (13 edits, 7 reads) on a small family; after
+// VerifC13_History: every history of cs%3+1 operations (24 edits, 7 reads) on a small family; after
 // every step each view equals the same view on a fresh decode of the current text; reads change nothing.
 func VerifC13_History(cs int) {
 	k := cs%3 + 1
